@@ -145,7 +145,8 @@ PROPS.update({
                                            "atomic operations of sync/atomic are linearizable"]}),
     "C07": mpx_prop("C07", ["inv_run", "conservation", "ack_rule", "admit_bound", "only_sender_debits", "no_deadlock", "quiescent_admits"],
                     ev("state_decrementSendWindow", "state_receiveWindow", "channel_Send", "channel_SendAndClose", "channel_ReceiveAsync"),
-                    [{"name": "flow", "gen": ["{bin}/mpxflow", "gen", "{seed}", "{tier}", "{stats}"], "go": ["{bin}/mpxflow"], "lean": ["{lean}/flowdriver"]}],
+                    [{"name": "flow", "gen": ["{bin}/mpxflow", "gen", "{seed}", "{tier}", "{stats}"], "go": ["{bin}/mpxflow"], "lean": ["{lean}/flowdriver"],
+                      "confirm": {"MPXFLOW_SETTLE_MS": "300", "MPXFLOW_RESETTLE_MS": "4000"}}],
                     ["mpxflow"], wake=True, drivers=["flowdriver"],
                     extra={"rule": "one evaluation = one flow-control script (window W, sends of given sizes, consumes, close) run against a real client/server pair and on the Lean model; the answer lists for every step whether the Send was admitted immediately or parked and which window update the receiver emitted",
                            "assumptions": ["eventual delivery of frames between the two sides (C03) and of wake-ups (WakeProps)"]}),
